@@ -52,6 +52,12 @@ CHECKS = {
  "C14": ("zcheck", "exhaustive enumeration (DFS) of bounded interface descriptions built through the public constructors, each rendered, parsed, compared deeply and rendered again; also parser-produced descriptions and the GetInterfaceDescription exchange through a real Connection and the generated proxy",
          "render-parse identity incl. comments on interface, members, direct fields, parameters, variants; second render equals first; what the client parses equals what the service described. One genuine defect is a listed known finding (custom enum with a commented variant renders without commas).",
          "Bounded as C13. Comments are plain single-line texts. Descriptions produced by the derive macros are round-tripped in C16's corpus.", "4 C14"),
+ "C19": ("sockets", "stateless model checking of real socketpair traffic: DFS over message sequences x driver schedules (which end is polled next, when a pending send future is dropped) with a deviation budget, every schedule one real single-threaded execution per runtime (tokio, smol)",
+         "Real AF_UNIX socketpairs with the smallest kernel buffers, real zlink_tokio / zlink_smol connections, futures polled by hand; received sequence must be the sent one (whole frames, in order, each at most once, every completed send delivered) for one- and two-directional traffic, with sends abandoned at every scheduled point; listeners bound vs. from an inherited descriptor with 1..8 clients, identifiers distinct.",
+         "The explorer owns the schedule, not how many bytes the kernel accepts per write (observed, assumed to be a function of the operation sequence). Identifier distinctness is checked sequentially only (a fetch_add turned into load+store would not be caught). Bounded: <=3 messages from {1 B, 300 B, 6 KB, 70 KB} (+1 MiB thorough), 8..16 scheduled steps, <=3 deviations.", "4 C19"),
+ "C20": ("sockets", "exhaustive enumeration (DFS) of operation sequences over {set, subscribe, poll(i), clone, drop} against zlink_tokio::notified and zlink_smol::notified, hand-polled on one thread, logs compared with the latest-value rule and with each other",
+         "Every sequence of <=8/10 operations with <=3 subscribers and <=3 state handles; per subscriber: items are values set after it subscribed, in order, each once, marked continuing; a drained subscriber has seen the latest value; a pending subscriber is woken by the next set; no end of stream while a state handle exists; tokio and smol observation logs equal; the 4 one-shot scenarios per crate.",
+         "Trusted: the broadcast/oneshot channel libraries are linearizable, so cross-thread use reduces to these sequences.", "4 C20"),
 }
 
 NOT_YET = {
